@@ -49,6 +49,8 @@ CONSTANTS G,          \* grid 0..G x 0..G
           Drawings,   \* drawings (= exported cases) per chosen bag
           Kinds,      \* catalogue families in use
           MutSeq,     \* sequence of mutation names; repeated names weight the choice in simulation
+          Modes,      \* relations of a new ring to an earlier one: subset of {"any","inside","around","apart","touch","same"}
+          MaxSegs,    \* bound on the number of segments of a case
           Styles,     \* drawing styles in use
           Theorems    \* TRUE: evaluate the A-layer consistency invariants (design check only)
 
@@ -79,7 +81,9 @@ Crosses(s, t) == ~Collinear(s, t) /\ ~SharedEnd(s, t) /\ Straddle(s, t) /\ Strad
 (* on one line and more than one common point (segments are normalised: s[1] before s[2]) *)
 Overlaps(s, t) == Collinear(s, t) /\ s # t /\ Lt(s[1], t[2]) /\ Lt(t[1], s[2])
 SegLt(s, t) == Lt(s[1], t[1]) \/ (s[1] = t[1] /\ Lt(s[2], t[2]))
-BadPairs(S) == {pr \in S \X S : SegLt(pr[1], pr[2]) /\ (Crosses(pr[1], pr[2]) \/ Overlaps(pr[1], pr[2]))}
+BadPairs(S) == {pr \in S \X S : /\ SegLt(pr[1], pr[2])
+                                 /\ ~(pr[1][2][1] < pr[2][1][1])      \* x ranges meet (pr[1] starts first)
+                                 /\ (Crosses(pr[1], pr[2]) \/ Overlaps(pr[1], pr[2]))}
 
 PointsOf(S) == {s[1] : s \in S} \cup {s[2] : s \in S}
 Deg(S, p) == Cardinality({s \in S : s[1] = p \/ s[2] = p})
@@ -134,40 +138,41 @@ Expected(S) == LET bad == BadPairs(S)
                    region |-> IF S # {} /\ odd = {} /\ bad = {} THEN {IdxNum(I) : I \in FillY(S, AllSamples)} ELSE {}]
 
 (* ------------------------------------------------------------------ the oracle for an observed result *)
-(* run = [entry: "rel" | "way", mgr, pr, ne: BOOLEAN, ret, area: BOOLEAN,
-          rings: Seq([pts: Seq(point), inn: Seq(Seq(point))]), st: [...], rep: [...]]                      *)
+(* An observation of one case: the rings of the committed area,
+     rings: Seq([pts: Seq(point), inn: Seq(Seq(point))])          (outer ring with its inner rings)
+   and the runs that produced exactly these rings,
+     runs: Seq([entry: "rel" | "way", mgr, pr, ne, ret, area: BOOLEAN, st: [...], rep: [...]])
+   (entry point, through the MultipolygonManager or not, ProblemReporter + check_roles configured or not,
+   create_empty_areas switched off or not, return value, area committed or not, area_stats, reporter calls). *)
 RingIds(rings) == UNION {{<<k, 0>>} \cup {<<k, m>> : m \in 1..Len(rings[k].inn)} : k \in 1..Len(rings)}
 RingPts(rings, r) == IF r[2] = 0 THEN rings[r[1]].pts ELSE rings[r[1]].inn[r[2]]
 Area2(pts) == SumF([k \in 1..(Len(pts) - 1) |-> pts[k][1] * pts[k + 1][2] - pts[k][2] * pts[k + 1][1]], Len(pts) - 1)
-RingOcc(rings) == UNION {{<<r, k>> : k \in 1..(Len(RingPts(rings, r)) - 1)} : r \in RingIds(rings)}
-ROSeg(rings, o) == Seg(RingPts(rings, o[1])[o[2]], RingPts(rings, o[1])[o[2] + 1])
 DirSegs(pts) == {<<pts[k], pts[k + 1]>> : k \in 1..(Len(pts) - 1)}
 Canon(rings) == {[o |-> DirSegs(rings[k].pts), inn |-> {DirSegs(rings[k].inn[m]) : m \in 1..Len(rings[k].inn)}] : k \in 1..Len(rings)}
+(* all ring segments as one sequence of [r |-> ring id, s |-> normalised segment] *)
+RingSegSeq(rings) ==
+  LET one(r) == LET p == RingPts(rings, r) IN [k \in 1..(Len(p) - 1) |-> [r |-> r, s |-> Seg(p[k], p[k + 1])]]
+      outer(k) == one(<<k, 0>>) \o Flat([m \in 1..Len(rings[k].inn) |-> one(<<k, m>>)])
+  IN Flat([k \in 1..Len(rings) |-> outer(k)])
+XApart(s, t) == s[2][1] < t[1][1] \/ t[2][1] < s[1][1]          \* x ranges disjoint (segments are normalised)
+Conflict(s, t) == ~XApart(s, t) /\ (s = t \/ Crosses(s, t) \/ Overlaps(s, t))
 
 WrongRole(role, outer) == role # "" /\ role # (IF outer THEN "outer" ELSE "inner")
 
-JudgeRings(ways, roles, exp, run, W) ==
-  LET rings == run.rings
-      ids == RingIds(rings)
-      occ == RingOcc(rings)
+(* requirements on the rings alone *)
+JudgeRings(ways, exp, rings, W) ==
+  LET ids == RingIds(rings)
+      rs == RingSegSeq(rings)
+      m == Len(rs)
       fill == [r \in ids |-> RingFillY(RingPts(rings, r), W)]
       outers == {r \in ids : r[2] = 0}
       inners == ids \ outers
       mp == UNION {fill[o] \ UNION {fill[r] : r \in {x \in inners : x[1] = o[1]}} : o \in outers}
-      inocc == WayOcc(ways)
-      (* wrong roles: for every ring segment the roles of the input ways that contain it *)
-      cand(o) == {roles[i[1]] : i \in {x \in inocc : OccSeg(ways, x) = ROSeg(rings, o)}}
-      lo == Cardinality({o \in occ : cand(o) # {} /\ \A ro \in cand(o) : WrongRole(ro, o[1][2] = 0)})
-      hi == Cardinality({o \in occ : \E ro \in cand(o) : WrongRole(ro, o[1][2] = 0)})
-      rolechk == run.pr /\ run.entry = "rel"
-  IN  {n \in {"closed", "short", "duppoint", "ringcross", "orient", "inside", "attach", "region", "segset",
-             "count_rings", "count_touch", "count_problems", "count_roles"} :
+  IN  {n \in {"closed", "short", "duppoint", "ringcross", "orient", "inside", "attach", "region", "segset"} :
          CASE n = "closed" -> \E r \in ids : LET p == RingPts(rings, r) IN Len(p) < 1 \/ p[1] # p[Len(p)]
            [] n = "short" -> \E r \in ids : Len(RingPts(rings, r)) < 4
-           [] n = "duppoint" -> \E o \in occ : RingPts(rings, o[1])[o[2]] = RingPts(rings, o[1])[o[2] + 1]
-           [] n = "ringcross" -> \E o1 \in occ, o2 \in occ : o1 # o2 /\
-                                    LET s == ROSeg(rings, o1)  t == ROSeg(rings, o2)
-                                    IN s = t \/ Crosses(s, t) \/ Overlaps(s, t)
+           [] n = "duppoint" -> \E r \in ids : LET p == RingPts(rings, r) IN \E k \in 1..(Len(p) - 1) : p[k] = p[k + 1]
+           [] n = "ringcross" -> \E i \in 1..m : \E j \in (i + 1)..m : Conflict(rs[i].s, rs[j].s)
            [] n = "orient" -> \E r \in ids : IF r[2] = 0 THEN Area2(RingPts(rings, r)) <= 0
                                                           ELSE Area2(RingPts(rings, r)) >= 0
            [] n = "inside" -> \E r \in inners : ~(fill[r] \subseteq fill[<<r[1], 0>>])
@@ -175,34 +180,52 @@ JudgeRings(ways, roles, exp, run, W) ==
                                  /\ o2[1] # r[1] /\ fill[r] # {} /\ fill[r] \subseteq fill[o2]
                                  /\ ~(fill[<<r[1], 0>>] \subseteq fill[o2])
            [] n = "region" -> {IdxNum(I) : I \in mp} # exp.region
-           [] n = "segset" -> {ROSeg(rings, o) : o \in occ} # Segments(ways)
-           [] n = "count_rings" -> run.st.outer_rings # Cardinality(outers) \/ run.st.inner_rings # Cardinality(inners)
-           [] n = "count_touch" -> run.st.touching_rings # exp.ntouch \/ (run.pr /\ run.rep.touching_ring # exp.ntouch)
-           [] n = "count_problems" -> \/ run.st.intersections # 0 \/ run.st.open_rings # 0
-                                      \/ (run.pr /\ (run.rep.intersection # 0 \/ run.rep.ring_not_closed # 0))
-           [] n = "count_roles" -> IF rolechk
-                                   THEN \/ run.st.wrong_role < lo \/ run.st.wrong_role > hi
-                                        \/ run.rep.role_should_be_outer + run.rep.role_should_be_inner # run.st.wrong_role
-                                   ELSE run.st.wrong_role # 0}
+           [] n = "segset" -> {rs[i].s : i \in 1..m} # Segments(ways)}
 
-Judge(ways, roles, exp, run, W) ==
+(* requirements on one run that delivered rings for a valid arrangement *)
+JudgeRunValid(ways, roles, exp, rings, run) ==
+  LET ids == RingIds(rings)
+      rs == RingSegSeq(rings)
+      nout == Len(rings)
+      nin == Cardinality(ids) - nout
+      inocc == WayOcc(ways)
+      (* wrong roles: for every ring segment the roles of the input ways that contain it (which copy of a
+         segment survives the cancellation is not determined: range) *)
+      cand(i) == {roles[x[1]] : x \in {y \in inocc : OccSeg(ways, y) = rs[i].s}}
+      lo == Cardinality({i \in 1..Len(rs) : cand(i) # {} /\ \A ro \in cand(i) : WrongRole(ro, rs[i].r[2] = 0)})
+      hi == Cardinality({i \in 1..Len(rs) : \E ro \in cand(i) : WrongRole(ro, rs[i].r[2] = 0)})
+  IN {n \in {"not_assembled", "count_rings", "count_touch", "count_problems", "count_roles"} :
+        CASE n = "not_assembled" -> ~(run.ret /\ run.area)
+          [] n = "count_rings" -> run.st.outer_rings # nout \/ run.st.inner_rings # nin
+          [] n = "count_touch" -> run.st.touching_rings # exp.ntouch \/ (run.pr /\ run.rep.touching_ring # exp.ntouch)
+          [] n = "count_problems" -> \/ run.st.intersections # 0 \/ run.st.open_rings # 0
+                                     \/ (run.pr /\ (run.rep.intersection # 0 \/ run.rep.ring_not_closed # 0))
+          [] n = "count_roles" -> IF run.pr /\ run.entry = "rel"
+                                  THEN \/ run.st.wrong_role < lo \/ run.st.wrong_role > hi
+                                       \/ run.rep.role_should_be_outer + run.rep.role_should_be_inner # run.st.wrong_role
+                                  ELSE run.st.wrong_role # 0}
+
+(* requirements on one run for an input that is not a valid arrangement *)
+JudgeRunInvalid(exp, run) ==
+  {n \in {"return_value", "not_reported", "count_intersections", "count_open"} :
+     CASE n = "return_value" -> ~run.mgr /\ (IF run.ne THEN run.ret \/ run.area ELSE ~run.ret \/ ~run.area)
+       [] n = "not_reported" -> /\ run.pr /\ ~run.mgr
+                                /\ \/ (exp.ncross > 0 /\ run.rep.intersection = 0)
+                                   \/ (exp.ncross = 0 /\ exp.nodd > 0 /\ run.rep.ring_not_closed = 0)
+       [] n = "count_intersections" -> /\ ~(run.mgr /\ ~run.area)
+                                       /\ exp.ncross > 0
+                                       /\ \/ run.st.intersections # exp.ncross
+                                          \/ (run.pr /\ run.rep.intersection # exp.ncross)
+       [] n = "count_open" -> /\ ~(run.mgr /\ ~run.area)
+                              /\ exp.ncross = 0 /\ exp.nodd > 0
+                              /\ \/ run.st.open_rings # exp.nodd
+                                 \/ (run.pr /\ run.rep.ring_not_closed # exp.nodd)}
+
+Judge(ways, roles, exp, rings, runs, W) ==
   IF exp.valid
-  THEN IF ~(run.ret /\ run.area /\ run.rings # <<>>) THEN {"not_assembled"}
-       ELSE JudgeRings(ways, roles, exp, run, W)
-  ELSE {n \in {"wrong_area", "return_value", "not_reported", "count_intersections", "count_open"} :
-         CASE n = "wrong_area" -> run.rings # <<>>
-           [] n = "return_value" -> ~run.mgr /\ (IF run.ne THEN run.ret \/ run.area ELSE ~run.ret \/ ~run.area)
-           [] n = "not_reported" -> /\ run.pr /\ ~run.mgr
-                                    /\ \/ (exp.ncross > 0 /\ run.rep.intersection = 0)
-                                       \/ (exp.ncross = 0 /\ exp.nodd > 0 /\ run.rep.ring_not_closed = 0)
-           [] n = "count_intersections" -> /\ ~(run.mgr /\ ~run.area)
-                                           /\ exp.ncross > 0
-                                           /\ \/ run.st.intersections # exp.ncross
-                                              \/ (run.pr /\ run.rep.intersection # exp.ncross)
-           [] n = "count_open" -> /\ ~(run.mgr /\ ~run.area)
-                                  /\ exp.ncross = 0 /\ exp.nodd > 0
-                                  /\ \/ run.st.open_rings # exp.nodd
-                                     \/ (run.pr /\ run.rep.ring_not_closed # exp.nodd)}
+  THEN IF rings = <<>> THEN {"not_assembled"}
+       ELSE JudgeRings(ways, exp, rings, W) \cup UNION {JudgeRunValid(ways, roles, exp, rings, runs[k]) : k \in 1..Len(runs)}
+  ELSE (IF rings # <<>> THEN {"wrong_area"} ELSE {}) \cup UNION {JudgeRunInvalid(exp, runs[k]) : k \in 1..Len(runs)}
 
 (* ------------------------------------------------------------------ catalogue of simple grid polygons *)
 R0 == 0..G
@@ -259,7 +282,6 @@ Bbox(pts) == LET xs == {pts[k][1] : k \in 1..Len(pts)}  ys == {pts[k][2] : k \in
                  y0 |-> CHOOSE v \in ys : \A u \in ys : v <= u, y1 |-> CHOOSE v \in ys : \A u \in ys : v >= u]
 BInside(a, b) == a.x0 >= b.x0 /\ a.x1 <= b.x1 /\ a.y0 >= b.y0 /\ a.y1 <= b.y1
 BApart(a, b) == a.x0 >= b.x1 \/ a.x1 <= b.x0 \/ a.y0 >= b.y1 \/ a.y1 <= b.y0
-RelModes == {"any", "inside", "around", "apart", "same"}
 Candidates(k, mode, ref) ==
    LET all == KindSet(k)
        rb == Bbox(ref)
@@ -267,45 +289,48 @@ Candidates(k, mode, ref) ==
               [] mode = "inside" -> {s \in all : BInside(Bbox(s), rb) /\ Bbox(s) # rb}
               [] mode = "around" -> {s \in all : BInside(rb, Bbox(s)) /\ Bbox(s) # rb}
               [] mode = "apart" -> {s \in all : BApart(Bbox(s), rb)}
+              [] mode = "touch" -> {s \in all : {s[j] : j \in 1..Len(s)} \cap {ref[j] : j \in 1..Len(ref)} # {}}
               [] mode = "same" -> {ref}
    IN IF c = {} THEN all ELSE c
 
 (* ------------------------------------------------------------------ the case builder *)
-VARIABLES stage, nrings, rings, kind, mode, refi, mut, bag, exp, style, rem, ways, cur, stut, roles, nd
-vars == <<stage, nrings, rings, kind, mode, refi, mut, bag, exp, style, rem, ways, cur, stut, roles, nd>>
+VARIABLES stage, nrings, rings, kind, mode, refi, mut, bag, exp, style, rpat, rem, ways, cur, stut, roles, nd
+vars == <<stage, nrings, rings, kind, mode, refi, mut, bag, exp, style, rpat, rem, ways, cur, stut, roles, nd>>
 
 NoExp == [valid |-> FALSE, empty |-> TRUE, ncross |-> 0, nodd |-> 0, ntouch |-> 0, region |-> {}]
 RoleNames == <<"outer", "inner", "", "foo">>
 GridPts == R0 \X R0
 
 Init == /\ stage = "start" /\ nrings = 0 /\ rings = <<>> /\ kind = "" /\ mode = "any" /\ refi = 0 /\ mut = ""
-        /\ bag = <<>> /\ exp = NoExp /\ style = "" /\ rem = {} /\ ways = <<>> /\ cur = <<>> /\ stut = FALSE
+        /\ bag = <<>> /\ exp = NoExp /\ style = "" /\ rpat = <<0, 0>> /\ rem = {} /\ ways = <<>> /\ cur = <<>> /\ stut = FALSE
         /\ roles = <<>> /\ nd = 0
 
 Start == /\ stage = "start"
          /\ nrings' \in 1..MaxRings
          /\ stage' = "kind"
-         /\ UNCHANGED <<rings, kind, mode, refi, mut, bag, exp, style, rem, ways, cur, stut, roles, nd>>
+         /\ UNCHANGED <<rings, kind, mode, refi, mut, bag, exp, style, rpat, rem, ways, cur, stut, roles, nd>>
 
 PickKind == /\ stage = "kind"
             /\ kind' \in Kinds
             /\ IF rings = <<>> THEN mode' = "any" /\ refi' = 0
-               ELSE mode' \in RelModes /\ refi' \in 1..Len(rings)
+               ELSE mode' \in Modes /\ refi' \in 1..Len(rings)
             /\ stage' = "shape"
-            /\ UNCHANGED <<nrings, rings, mut, bag, exp, style, rem, ways, cur, stut, roles, nd>>
+            /\ UNCHANGED <<nrings, rings, mut, bag, exp, style, rpat, rem, ways, cur, stut, roles, nd>>
 
+RingBag == Flat([k \in 1..Len(rings) |-> ShapeSegs(rings[k])])
 PickShape == /\ stage = "shape"
-             /\ \E s \in (IF rings = <<>> THEN KindSet(kind) ELSE Candidates(kind, mode, rings[refi])) :
-                  rings' = Append(rings, s)
-             /\ stage' = IF Len(rings) + 1 < nrings THEN "kind" ELSE "mut"
-             /\ UNCHANGED <<nrings, kind, mode, refi, mut, bag, exp, style, rem, ways, cur, stut, roles, nd>>
+             /\ LET c == {s \in (IF rings = <<>> THEN KindSet(kind) ELSE Candidates(kind, mode, rings[refi])) :
+                           Len(RingBag) + Len(s) - 1 <= MaxSegs}
+                IN IF c = {} THEN rings # <<>> /\ rings' = rings /\ stage' = "mut"     \* no room for another ring
+                   ELSE /\ \E s \in c : rings' = Append(rings, s)
+                        /\ stage' = IF Len(rings) + 1 < nrings THEN "kind" ELSE "mut"
+             /\ UNCHANGED <<nrings, kind, mode, refi, mut, bag, exp, style, rpat, rem, ways, cur, stut, roles, nd>>
 
 PickMut == /\ stage = "mut"
            /\ \E i \in 1..Len(MutSeq) : mut' = MutSeq[i]
            /\ stage' = "mutarg"
-           /\ UNCHANGED <<nrings, rings, kind, mode, refi, bag, exp, style, rem, ways, cur, stut, roles, nd>>
+           /\ UNCHANGED <<nrings, rings, kind, mode, refi, bag, exp, style, rpat, rem, ways, cur, stut, roles, nd>>
 
-RingBag == Flat([k \in 1..Len(rings) |-> ShapeSegs(rings[k])])
 DropAt(s, i) == SubSeq(s, 1, i - 1) \o SubSeq(s, i + 1, Len(s))
 MutBags == LET b == RingBag
            IN CASE mut = "drop" -> {DropAt(b, i) : i \in 1..Len(b)}                        \* open ring
@@ -318,12 +343,19 @@ MutBags == LET b == RingBag
 
 ApplyMut == /\ stage = "mutarg"
             /\ bag' \in MutBags
-            /\ exp' = Expected(BagSegments(bag'))
-            /\ stage' = "style"
-            /\ UNCHANGED <<nrings, rings, kind, mode, refi, mut, style, rem, ways, cur, stut, roles, nd>>
+            /\ stage' = "expect"
+            /\ UNCHANGED <<nrings, rings, kind, mode, refi, mut, exp, style, rpat, rem, ways, cur, stut, roles, nd>>
+
+(* the expected verdict is a function of the segment bag alone (its own step: in simulation TLC evaluates the
+   primed expressions of every successor of a step, not only of the chosen one) *)
+Expect == /\ stage = "expect"
+          /\ exp' = Expected(BagSegments(bag))
+          /\ stage' = "style"
+          /\ UNCHANGED <<nrings, rings, kind, mode, refi, mut, bag, style, rpat, rem, ways, cur, stut, roles, nd>>
 
 Style == /\ stage = "style"
          /\ style' \in Styles
+         /\ rpat' \in (0..3) \X (0..3)
          /\ rem' = 1..Len(bag) /\ ways' = <<>> /\ cur' = <<>> /\ stut' = FALSE /\ roles' = <<>>
          /\ stage' = "draw"
          /\ UNCHANGED <<nrings, rings, kind, mode, refi, mut, bag, exp, nd>>
@@ -337,19 +369,19 @@ StartWay == /\ stage = "draw" /\ cur = <<>> /\ rem # {}
             /\ \E i \in rem, d \in {1, 2} :
                  /\ cur' = <<bag[i][d], bag[i][3 - d]>>
                  /\ rem' = rem \ {i}
-            /\ UNCHANGED <<stage, nrings, rings, kind, mode, refi, mut, bag, exp, style, ways, stut, roles, nd>>
+            /\ UNCHANGED <<stage, nrings, rings, kind, mode, refi, mut, bag, exp, style, rpat, ways, stut, roles, nd>>
 
 Extend == /\ stage = "draw" /\ cur # <<>> /\ style # "short"
           /\ \E i \in CanExtend :
                /\ cur' = Append(cur, Other(bag[i], Last(cur)))
                /\ rem' = rem \ {i}
-          /\ UNCHANGED <<stage, nrings, rings, kind, mode, refi, mut, bag, exp, style, ways, stut, roles, nd>>
+          /\ UNCHANGED <<stage, nrings, rings, kind, mode, refi, mut, bag, exp, style, rpat, ways, stut, roles, nd>>
 
 (* a way with the same node twice in a row (only in "dupnode" cases, once per drawing) *)
 Stutter == /\ stage = "draw" /\ cur # <<>> /\ mut = "dupnode" /\ ~stut
            /\ cur' = Append(cur, Last(cur))
            /\ stut' = TRUE
-           /\ UNCHANGED <<stage, nrings, rings, kind, mode, refi, mut, bag, exp, style, rem, ways, roles, nd>>
+           /\ UNCHANGED <<stage, nrings, rings, kind, mode, refi, mut, bag, exp, style, rpat, rem, ways, roles, nd>>
 
 Finish == /\ stage = "draw" /\ cur # <<>>
           /\ CASE style = "long" -> CanExtend = {}
@@ -358,19 +390,19 @@ Finish == /\ stage = "draw" /\ cur # <<>>
           /\ ways' = Append(ways, cur)
           /\ cur' = <<>>
           /\ stage' = IF rem = {} THEN "roles" ELSE "draw"
-          /\ UNCHANGED <<nrings, rings, kind, mode, refi, mut, bag, exp, style, rem, stut, roles, nd>>
+          /\ UNCHANGED <<nrings, rings, kind, mode, refi, mut, bag, exp, style, rpat, rem, stut, roles, nd>>
 
 Roles == /\ stage = "roles"
-         /\ \E a \in 0..3, b \in 0..3 : roles' = [i \in 1..Len(ways) |-> RoleNames[((a * i + b) % 4) + 1]]
+         /\ roles' = [i \in 1..Len(ways) |-> RoleNames[((rpat[1] * i + rpat[2]) % 4) + 1]]
          /\ stage' = "done"
          /\ nd' = nd + 1
-         /\ UNCHANGED <<nrings, rings, kind, mode, refi, mut, bag, exp, style, rem, ways, cur, stut>>
+         /\ UNCHANGED <<nrings, rings, kind, mode, refi, mut, bag, exp, style, rpat, rem, ways, cur, stut>>
 
 Redraw == /\ stage = "done" /\ nd < Drawings
           /\ stage' = "style"
-          /\ UNCHANGED <<nrings, rings, kind, mode, refi, mut, bag, exp, style, rem, ways, cur, stut, roles, nd>>
+          /\ UNCHANGED <<nrings, rings, kind, mode, refi, mut, bag, exp, style, rpat, rem, ways, cur, stut, roles, nd>>
 
-Next == Start \/ PickKind \/ PickShape \/ PickMut \/ ApplyMut \/ Style \/ StartWay \/ Extend \/ Stutter \/ Finish
+Next == Start \/ PickKind \/ PickShape \/ PickMut \/ ApplyMut \/ Expect \/ Style \/ StartWay \/ Extend \/ Stutter \/ Finish
         \/ Roles \/ Redraw
 Spec == Init /\ [][Next]_vars
 
@@ -379,6 +411,7 @@ MutGen == <<"none", "none", "none", "none", "none", "none", "dupnode", "drop", "
 MutDraw == <<"none", "drop", "dupseg", "dupnode">>
 MutThm == <<"none", "drop", "dupseg", "dupring", "tripseg">>
 MutNone == <<"none">>
+MutThmQ == <<"none", "drop", "dupring">>
 
 (* ------------------------------------------------------------------ export *)
 Export == stage = "done" =>
@@ -434,15 +467,16 @@ RefRun(spoil) ==
                  inn |-> [m \in 1..Cardinality(innOf(oseq[a])) |-> Orient(rings[iseq(oseq[a])[m]], FALSE)]]]
        rs2 == IF spoil = "drop" THEN Tail(rs) ELSE rs
        nin == Cardinality({k \in 1..n : ~isOuter(k)})
-   IN [entry |-> "rel", mgr |-> FALSE, pr |-> FALSE, ne |-> FALSE, ret |-> TRUE, area |-> TRUE, rings |-> rs2,
-       st |-> [outer_rings |-> Len(rs2), inner_rings |-> IF spoil = "drop" THEN SumF([a \in 1..Len(rs2) |-> Len(rs2[a].inn)], Len(rs2)) ELSE nin,
-               touching_rings |-> 0, intersections |-> 0, open_rings |-> 0, wrong_role |-> 0],
-       rep |-> [touching_ring |-> 0, intersection |-> 0, ring_not_closed |-> 0, role_should_be_outer |-> 0, role_should_be_inner |-> 0]]
+   IN [rings |-> rs2,
+       run |-> [entry |-> "rel", mgr |-> FALSE, pr |-> FALSE, ne |-> FALSE, ret |-> TRUE, area |-> TRUE,
+                st |-> [outer_rings |-> Len(rs2), inner_rings |-> IF spoil = "drop" THEN SumF([a \in 1..Len(rs2) |-> Len(rs2[a].inn)], Len(rs2)) ELSE nin,
+                        touching_rings |-> 0, intersections |-> 0, open_rings |-> 0, wrong_role |-> 0],
+                rep |-> [touching_ring |-> 0, intersection |-> 0, ring_not_closed |-> 0, role_should_be_outer |-> 0, role_should_be_inner |-> 0]]]
 RefCase == Theorems /\ stage = "style" /\ nd = 0 /\ mut = "none" /\ exp.valid /\ VertexDisjoint
 RefWays == rings
 RefRoles == [k \in 1..Len(rings) |-> ""]
-JudgeAcceptsReference == RefCase => Judge(RefWays, RefRoles, exp, RefRun("none"), AllSamples) = {}
-JudgeRejectsSpoiled == RefCase => /\ "orient" \in Judge(RefWays, RefRoles, exp, RefRun("orient"), AllSamples)
-                                  /\ LET j == Judge(RefWays, RefRoles, exp, RefRun("drop"), AllSamples)
-                                     IN "region" \in j \/ "not_assembled" \in j
+RefJudge(spoil) == LET rr == RefRun(spoil) IN Judge(RefWays, RefRoles, exp, rr.rings, <<rr.run>>, AllSamples)
+JudgeAcceptsReference == RefCase => RefJudge("none") = {}
+JudgeRejectsSpoiled == RefCase => /\ "orient" \in RefJudge("orient")
+                                  /\ LET j == RefJudge("drop") IN "region" \in j \/ "not_assembled" \in j
 =============================================================================
